@@ -22,9 +22,13 @@ EXPLANATION = (
     "False after the first failing share, True only after the loop over all named shares, using the share's own "
     "test vector and b'' semantics (EmptyShare) exactly for missing shares; (7) the mutable write path (writev, "
     "_evaluate_write_vectors, _allocate_slot_share, create_mutable_sharefile, MutableShareFile.create and the "
-    "private writers) is called only from that guarded chain.  Undecided (explicit non-claim): an exception in "
-    "the middle of _evaluate_write_vectors (e.g. DataTooLargeError or NoSpace on the second share) leaves earlier "
-    "shares written; interleaving with other requests; values compared.")
+    "private writers) is called only from that guarded chain; leases are renewed exactly on the dict of shares the "
+    "write stage reports as remaining, and the read stage returns share.readv(read_vector) for every collected share; "
+    "(8) all-or-nothing across shares: every request-validation exception that a share's write step can raise "
+    "explicitly (transitively, storage package) must also be raised at a point no mutating step can precede - "
+    "on the pinned tree this FAILS for DataTooLargeError (finding: a later share's oversized write aborts the request "
+    "after earlier shares were written).  Undecided (explicit non-claim): I/O errors (OSError) in the middle of the "
+    "write stage; NoSpace from the lease step after all writes; interleaving with other requests; values compared.")
 TECHNIQUE = "static analysis: CFG must-precede/guard rules, filesystem-effect summaries over the call graph, who-may-call"
 
 MSF = "storage.mutable:MutableShareFile"
@@ -402,7 +406,25 @@ def run(ctx: Context):
                     and attr_path(a[2]) == p_tw and shares_arg_ok(n, a[3])
                 r.require(ok, slot, slot.loc(c), "_evaluate_write_vectors is given %s, not (bucketdir, secrets, "
                           "test_and_write_vectors, collected shares) of this request" % src(slot, c))
+            if call_tail(c) == "_add_or_renew_leases":
+                a0 = arg(c, 0)
+                wcs = [wc for (wn2, wc, e2) in writers if call_tail(wc) == "_evaluate_write_vectors"]
+                ok = isinstance(a0, ast.Call) and call_tail(a0) == "values" and isinstance(a0.func, ast.Attribute) \
+                    and any(res(fnm, n, a0.func.value) is wc for wc in wcs)
+                r.require(ok, slot, slot.loc(c), "leases are renewed on %s, not on the shares that remain after this request's "
+                          "writes" % src(slot, a0))
         r.count(len(cfg.nodes) * len(writers))
+        # _evaluate_write_vectors returns the dict that received every share it wrote to
+        ev = idx.func(SRV + "._evaluate_write_vectors")
+        ecfg = ev.cfg()
+        rvs = {attr_path(n.ast.value) for n in ecfg.find(is_return)}
+        r.require(len(rvs) == 1 and None not in rvs, ev, ev.loc(), "_evaluate_write_vectors does not return its dict of remaining shares")
+        if len(rvs) == 1 and None not in rvs:
+            rsv = rvs.pop()
+            for (s_, w) in find_path_from_to_avoiding(ecfg, has_call("writev"), gate_node=lambda m: (rsv + "[]") in node_stores(m),
+                                                      ends=lambda m: m.kind in ("iter", "exit") or is_return(m)):
+                r.violation(ev, ev.loc(s_.ast), "a share that was written is not recorded among the remaining shares: its lease "
+                            "would not be renewed (path: %s)" % w.brief(), w)
 
     # -- 2. no write effects before the decision --------------------------------------
     with ctx.rule("C24.2", "E4", "collecting shares, evaluating test vectors and evaluating read vectors have no "
@@ -423,7 +445,7 @@ def run(ctx: Context):
 
     # -- 3. reads precede writes; returned pair -------------------------------------
     with ctx.rule("C24.3", "R1", "the read vectors are evaluated before any write and the result is (test verdict, "
-                  "pre-write read data)", expected=2) as r:
+                  "pre-write read data)", expected=3) as r:
         rets = cfg.find(is_return)
         if not rets:
             raise AnchorVanished("no return in slot_testv_and_readv_and_writev")
@@ -447,6 +469,27 @@ def run(ctx: Context):
                     vis, par = explore(cfg, 0, lambda a_, l_, b_, s_: None if l_ == "exc" else 0, start=wn)
                     if any(i == rn.id for (i, _s) in vis if i != wn.id):
                         r.violation(slot, slot.loc(rc), "the returned read vectors can be evaluated after %s" % src(slot, c.func))
+
+        rvf = idx.func(SRV + "._evaluate_read_vectors")
+        r.site(rvf, None, "read stage implementation")
+        rp = first_positional_params(rvf)
+        rcfg = rvf.cfg()
+        rets2 = rcfg.find(is_return)
+        dvs = {attr_path(n.ast.value) for n in rets2}
+        okr = len(dvs) == 1 and None not in dvs
+        if okr:
+            dname = list(dvs)[0]
+            heads2 = [n for n in rcfg.nodes if n.kind == "iter" and norm_plain(n.ast.iter) == rp[1] + ".items()"
+                      and isinstance(n.ast.target, ast.Tuple) and len(n.ast.target.elts) == 2]
+            okr = len(heads2) == 1
+            if okr:
+                k, v = [attr_path(e) for e in heads2[0].ast.target.elts]
+                st = [n for n in rcfg.nodes if (dname + "[]") in node_stores(n) and isinstance(n.ast, ast.Assign)
+                      and norm_plain(n.ast.targets[0]) == "%s[%s]" % (dname, k) and norm_plain(n.ast.value) == "%s.readv(%s)" % (v, rp[0])]
+                okr = len(st) == 1 and not find_path_from_to_avoiding(
+                    rcfg, lambda m: m is heads2[0], gate_node=lambda m: m is st[0], ends=lambda m: m is heads2[0],
+                    start_label=lambda lab: lab == "iter") and loop_early_exit(rcfg, heads2[0]) is None
+        r.require(okr, rvf, rvf.loc(), "_evaluate_read_vectors does not return {sharenum: share.readv(read_vector)} for every collected share")
 
     # -- 4. the collect loop ---------------------------------------------------------
     with ctx.rule("C24.4", "R1/R2", "_collect_mutable_shares_for_storage_index checks the write enabler of every numeric "
@@ -546,6 +589,10 @@ def run(ctx: Context):
                 r.violation(fn, fn.loc(head.ast), "a directory entry can be passed over without checking its write "
                             "enabler (path: %s)" % w.brief(), w)
                 break
+        nodir = lambda m, lab: f4.edge_fact(m, lab) == ("false", "os.path.isdir(%s)" % bd, None)
+        for (t, w) in find_path_avoiding(c4, lambda m: m.kind == "exit", gate_node=lambda m: m is head, gate_edge=nodir):
+            r.violation(fn, fn.loc(), "the shares of an existing bucket directory can be left uncollected (and unchecked) "
+                        "(path: %s)" % w.brief(), w)
         bad = loop_early_exit(c4, head)
         if bad is not None:
             r.violation(fn, fn.loc(bad.ast), "the collect loop can be left early: later shares are neither checked nor "
@@ -679,7 +726,7 @@ def run(ctx: Context):
 
     # -- 7. who may call the write path ----------------------------------------------
     with ctx.rule("C24.7", "R4", "the mutable write path is entered only through the guarded chain "
-                  "slot_testv_and_readv_and_writev -> _evaluate_write_vectors -> writev / _allocate_slot_share", expected=8) as r:
+                  "slot_testv_and_readv_and_writev -> _evaluate_write_vectors -> writev / _allocate_slot_share", expected=10) as r:
         table = [
             ("_evaluate_write_vectors", [SRV + ".slot_testv_and_readv_and_writev"], None),
             ("_allocate_slot_share", [SRV + "._evaluate_write_vectors"], None),
